@@ -104,15 +104,20 @@ impl PatchName {
             name = name.to_lowercase();
         }
 
-        let mut candidate = name.as_str();
-        loop {
-            let prev_len = candidate.len();
-            candidate = candidate.trim_end_matches(".lock");
-            candidate = candidate.trim_matches(|c| c == '-' || c == '.');
-            if candidate.len() == prev_len {
-                break;
+        // Strip trailing ".lock" and leading/trailing '-' and '.' until stable.
+        fn strip_invalid_ends(s: &str) -> &str {
+            let mut candidate = s;
+            loop {
+                let prev_len = candidate.len();
+                candidate = candidate.trim_end_matches(".lock");
+                candidate = candidate.trim_matches(|c| c == '-' || c == '.');
+                if candidate.len() == prev_len {
+                    break candidate;
+                }
             }
         }
+
+        let mut candidate = strip_invalid_ends(name.as_str());
 
         if candidate.is_empty() {
             candidate = default_name;
@@ -140,9 +145,15 @@ impl PatchName {
                 }
             }
 
+            // Truncating at a word boundary may leave a word ending with ".lock" last.
+            let mut short = strip_invalid_ends(short.as_str());
+            if short.is_empty() {
+                short = default_name;
+            }
+
             // Could use Self(short) here, but calling try_from()/from_str()
             // validates the generated patchname.
-            Self::try_from(short).expect("\"{short}\" generated from \"{base}\" should be valid")
+            Self::from_str(short).expect("\"{short}\" generated from \"{base}\" should be valid")
         } else {
             Self::from_str(candidate)
                 .expect("\"{candidate}\" generated from \"{base}\" should be valid")
